@@ -2,11 +2,17 @@
   Locality of the block parser (C05).
 
   (S1) `FW.up pre b`: the cursor `b` seen through a buffer that has `pre` in front.  No reader looks
-       at or steps back into `pre`: every reader commutes with `up`.
+       at or steps back into `pre`: every reader commutes with `up` (`up_all`, `tokLoop_suffix`).
   (S2) `FW.sh k b`: the same buffer with `start` and every ghost origin shifted by `k`.  Every
-       reader commutes with `sh`, payloads carrying line numbers are shifted.
+       reader commutes with `sh`, payloads carrying line numbers are shifted (`sh_all`, `tokenizeBlock_shift`).
+  (M)  more gas never changes a result (`mono_all`).
+  (P)  `FW.ext post a`: the same cursor on the buffer with `post` (beginning with a "\n" line)
+       appended.  Readers that stop at a blank line as at the end of input commute with `ext`; the
+       others do when they stopped before the end (`extTry2_all`, `tokLoop_ext`).
+  Also: the accumulator of the dispatch loop is a prefix of its result (`tokLoop_acc`), and
+  `Paragraph.parse_setext` is `True` after every top-level read (`sx_all`).
 -/
-import Mistletoe.Proofs.Inert
+import Mistletoe.Proofs.Block
 namespace Mistletoe.Block
 open Mistletoe Mistletoe.Py Mistletoe.Scan
 
@@ -185,7 +191,7 @@ theorem count_drop_le (ch : Char) (s : Str) (n : Nat) : count ch (s.drop n) ≤ 
   conv => rhs; rw [this, count_append]
   omega
 
-theorem footnoteRefs_back (s : Str) : ∀ (fuel off : Nat) (acc : List FnMatch) (ms) (k : Nat),
+theorem footnoteRefs_backLe (s : Str) : ∀ (fuel off : Nat) (acc : List FnMatch) (ms) (k : Nat),
     footnoteRefs s fuel off acc = .ok (ms, some k) → k ≤ count '\n' s
   | 0, _, _, _, _, h => by simp [footnoteRefs] at h
   | fuel + 1, off, acc, ms, k, h => by
@@ -194,7 +200,7 @@ theorem footnoteRefs_back (s : Str) : ∀ (fuel off : Nat) (acc : List FnMatch) 
     · split at h
       · cases h
       · cases h; exact count_drop_le _ _ _
-      · exact footnoteRefs_back s fuel _ _ _ _ h
+      · exact footnoteRefs_backLe s fuel _ _ _ _ h
     · cases h
 
 /-- lines handed back by `Footnote.read` ≤ lines consumed (every line ends with its only newline) -/
@@ -203,7 +209,7 @@ theorem readFootnote_back (b : FW) (hl : AllNlEnd b.lines) (ms) (k : Nat)
       (((footnoteLines (b.remaining + 1) b []).1.reverse).flatten.length + 2) 0 [] = .ok (ms, some k)) :
     k + b.pos ≤ (footnoteLines (b.remaining + 1) b []).2.pos := by
   have hspec := footnoteLines_spec (b.remaining + 1) b [] b.pos (by intro x hx; cases hx) (by simp) hl
-  have hk := footnoteRefs_back _ _ _ _ _ _ h
+  have hk := footnoteRefs_backLe _ _ _ _ _ _ h
   rw [count_flatten_nl _ (fun x hx => hspec.1 x (by simpa using hx))] at hk
   have := hspec.2.1
   simp only [List.length_reverse] at hk
@@ -439,11 +445,11 @@ theorem itemLoop_same (cfg : Cfg) (prepend : Nat) : ∀ (fuel : Nat) (fw : FW) (
             · cases h; exact dropTrailing_same fw buf nl
             · exact (same_next fw).trans (itemLoop_same cfg prepend fuel _ _ _ r h)
 
-def ItemLines.fw : ItemLines → FW
+def ItemLines.cursor : ItemLines → FW
   | .empty _ _ _ _ _ _ fw => fw
   | .lines _ _ _ _ _ _ _ _ fw => fw
 
-theorem itemLines_same (cfg : Cfg) (fw : FW) (prev) (il : ItemLines) (h : itemLines cfg fw prev = .ok il) : Same fw il.fw := by
+theorem itemLines_same (cfg : Cfg) (fw : FW) (prev) (il : ItemLines) (h : itemLines cfg fw prev = .ok il) : Same fw il.cursor := by
   have hsk := (skipBlanks_inv (fw.remaining + 1) fw.next 1).1
   unfold itemLines at h
   split at h
@@ -465,7 +471,7 @@ theorem itemLines_same (cfg : Cfg) (fw : FW) (prev) (il : ItemLines) (h : itemLi
           cases h
           exact (same_next fw).trans (itemLoop_same cfg _ _ _ _ _ _ heq)
 
-theorem itemLines_up_fw (pre : List Line) (il : ItemLines) : (il.up pre).fw = il.fw.up pre := by
+theorem itemLines_up_fw (pre : List Line) (il : ItemLines) : (il.up pre).cursor = il.cursor.up pre := by
   cases il <;> rfl
 
 /-! #### tokenize_block: the cursor stays in its buffer -/
@@ -486,7 +492,7 @@ theorem sameList_step (cfg : Cfg) (gas : Nat) (hL : SameList cfg gas) : SameList
     split at h
     · cases h
     · rename_i item itemLeader next fw' st' hres
-      have hfw : fw' = il.fw := by
+      have hfw : fw' = il.cursor := by
         cases il with
         | empty => simp only at hres; cases hres; rfl
         | lines =>
@@ -609,13 +615,13 @@ theorem upList_step (cfg : Cfg) (pre : List Line) (gas : Nat) (hL : UpList cfg p
   | err e => rfl
   | ok il =>
     have hsame := itemLines_same cfg b nm il hil
-    have hs' : pre.length ≤ il.fw.start := by rw [hsame.2]; exact hs
-    have hl' : AllNlEnd il.fw.lines := by rw [hsame.1]; exact hl
+    have hs' : pre.length ≤ il.cursor.start := by rw [hsame.2]; exact hs
+    have hl' : AllNlEnd il.cursor.lines := by rw [hsame.1]; exact hl
     simp only [rmap_ok]
     cases il with
     | empty ind p ldr ln og next fw' =>
       simp only [ItemLines.up]
-      simp only [ItemLines.fw] at hs' hl'
+      simp only [ItemLines.cursor] at hs' hl'
       cases ld with
       | some d =>
         simp only
@@ -631,7 +637,7 @@ theorem upList_step (cfg : Cfg) (pre : List Line) (gas : Nat) (hL : UpList cfg p
         | some m => exact hL fw' _ _ _ _ hs' hl'
     | lines buf cs ind p ldr ln og next fw' =>
       simp only [ItemLines.up]
-      simp only [ItemLines.fw] at hs' hl'
+      simp only [ItemLines.cursor] at hs' hl'
       cases tokenizeBlock cfg gas buf cs st with
       | err e => rfl
       | ok r =>
@@ -1837,10 +1843,6 @@ def closedE : Entry → Bool
   | .table .. => true
   | _ => false
 
-def closedR : Option (Entry × FW × St) → Bool
-  | none => true
-  | some (e, _, _) => closedE e
-
 def extT (post : List Line) (r : Entry × FW × St) : Entry × FW × St := (r.1, r.2.1.ext post, r.2.2)
 
 @[simp] theorem ext_start (post : List Line) (a : FW) : (a.ext post).start = a.start := rfl
@@ -1857,170 +1859,6 @@ theorem readHeading_fw (a : FW) (line : Str) (r) (h : readHeading a line = some 
   · cases h
   · cases h; rfl
 
-def ExtTry (cfg : Cfg) (nl : Line) (rest : List Line) (gas : Nat) : Prop :=
-  ∀ (a : FW) (st : St) (l : Line) (ts : List BTok) (r), AllNlEnd a.lines → a.peek = some l →
-    tryTypes cfg gas a st l ts = .ok r → closedR r = true →
-    tryTypes cfg gas (a.ext (nl :: rest)) st l ts = .ok (r.map (extT (nl :: rest))) ∧ ∀ x, r = some x → x.2.1.InB
-
-theorem extTry_step (cfg : Cfg) (nl : Line) (rest : List Line) (hnl : nl.s = ['\n']) (gas : Nat)
-    (hY : ExtTry cfg nl rest gas) : ExtTry cfg nl rest (gas + 1) := by
-  intro a st l ts r hl hp h hc
-  cases ts with
-  | nil =>
-    simp only [tryTypes] at h ⊢
-    cases h
-    exact ⟨rfl, fun x hx => by cases hx⟩
-  | cons t ts =>
-    have ih := fun (h : tryTypes cfg gas a st l ts = .ok r) => hY a st l ts r hl hp h hc
-    have hinb : a.InB := Nat.le_of_lt (peek_some_lt a l hp)
-    simp only [tryTypes, ext_start, ext_pos] at h ⊢
-    cases t <;> simp only at h ⊢
-    · -- htmlBlock
-      cases hh : htmlBlockStart l.s with
-      | err e => simp [hh] at h
-      | ok o =>
-        simp only [hh] at h ⊢
-        cases o with
-        | none => exact ih h
-        | some p => simp only at h; cases h; simp [closedR, closedE] at hc
-    · -- blockCode
-      split
-      · rename_i hb; simp only [hb, if_true] at h; cases h; simp [closedR, closedE] at hc
-      · rename_i hb; simp only [hb] at h; exact ih h
-    · -- heading
-      rw [readHeading_ext]
-      cases hh : readHeading a l.s with
-      | none => simp only [hh] at h ⊢; exact ih h
-      | some x =>
-        have hfw := readHeading_fw a l.s x hh
-        simp only [hh] at h ⊢
-        cases h
-        refine ⟨rfl, ?_⟩
-        intro y hy; cases hy
-        show x.2.2.2.InB
-        rw [hfw]; exact next_inb a l hp
-    · -- quote
-      split
-      · rename_i hb
-        simp only [hb, if_true] at h
-        cases hq : quoteLines cfg a l with
-        | err e => simp [hq] at h
-        | ok x =>
-          have key := quoteLines_ext cfg nl rest hnl a l hp l x hq
-          obtain ⟨qls, qstart, fw'⟩ := x
-          simp only [hq, key.1] at h ⊢
-          cases hbk : tokenizeBlock cfg gas qls qstart { st with setext := false } with
-          | err e => simp [hbk] at h
-          | ok bb =>
-            simp only [hbk] at h ⊢
-            cases h
-            refine ⟨rfl, ?_⟩
-            intro y hy; cases hy; exact key.2
-      · rename_i hb; simp only [hb] at h; exact ih h
-    · -- codeFence
-      cases hh : codeFenceStart l.s with
-      | none => simp only [hh] at h ⊢; exact ih h
-      | some x => simp only [hh] at h; cases h; simp [closedR, closedE] at hc
-    · -- thematicBreak
-      split
-      · rename_i hb
-        simp only [hb, if_true] at h
-        cases h
-        refine ⟨rfl, ?_⟩
-        intro y hy; cases hy; exact next_inb a l hp
-      · rename_i hb; simp only [hb] at h; exact ih h
-    · -- list
-      split
-      · rename_i hb
-        simp only [hb, if_true] at h
-        cases hr : readList cfg gas a st none none [] with
-        | err e => simp [hr] at h
-        | ok x => simp only [hr] at h; cases h; simp [closedR, closedE] at hc
-      · rename_i hb; simp only [hb] at h; exact ih h
-    · -- table
-      split
-      · rename_i hb
-        simp only [hb, if_true] at h
-        have key := readTable_ext nl rest hnl a l hp
-        rw [key.1]
-        cases hh : readTable a with
-        | none => simp only [hh] at h ⊢; exact ih h
-        | some x =>
-          simp only [hh] at h ⊢
-          cases h
-          refine ⟨rfl, ?_⟩
-          intro y hy; cases hy; exact key.2 x hh
-      · rename_i hb; simp only [hb] at h; exact ih h
-    · -- footnote
-      split
-      · rename_i hb
-        simp only [hb, if_true] at h
-        rw [readFootnote_ext nl rest hnl a hinb]
-        cases hf : readFootnote a with
-        | err e => simp [hf] at h
-        | ok x =>
-          obtain ⟨ms, fw'⟩ := x
-          simp only [hf, rmap_ok] at h ⊢
-          split
-          · rename_i hm
-            simp only [hm, if_true] at h
-            have hsame := readFootnote_same a ms fw' hf
-            have hpf := footnote_restores a ms fw' l hf hm hl hp (startsWith_lstrip_nb _ hb)
-            exact hY fw' _ l ts r (by rw [hsame.1]; exact hl) hpf h hc
-          · rename_i hm
-            simp only [hm, Bool.false_eq_true, if_false] at h
-            cases h; simp [closedR, closedE] at hc
-      · rename_i hb; simp only [hb] at h; exact ih h
-    · -- paragraph
-      split
-      · rename_i hb
-        simp only [hb, if_true] at h
-        cases hpp : readParagraph cfg st.setext a l.s with
-        | err e => simp [hpp] at h
-        | ok x =>
-          have key := readParagraph_ext cfg st.setext nl rest hnl a l hp l.s x hpp
-          obtain ⟨bb, se, fw'⟩ := x
-          simp only [hpp, key.1] at h ⊢
-          cases se with
-          | true =>
-            simp only at h ⊢
-            cases h
-            refine ⟨rfl, ?_⟩
-            intro y hy; cases hy; exact key.2
-          | false =>
-            simp only at h ⊢
-            cases h
-            refine ⟨rfl, ?_⟩
-            intro y hy; cases hy; exact key.2
-      · rename_i hb; simp only [hb] at h; exact ih h
-    · -- blankLine
-      split
-      · rename_i hb; simp only [hb, if_true] at h; cases h; simp [closedR, closedE] at hc
-      · rename_i hb; simp only [hb] at h; exact ih h
-    · -- linkRefDefBlock
-      split
-      · rename_i hb
-        simp only [hb, if_true] at h
-        rw [readFootnote_ext nl rest hnl a hinb]
-        cases hf : readFootnote a with
-        | err e => simp [hf] at h
-        | ok x =>
-          obtain ⟨ms, fw'⟩ := x
-          simp only [hf, rmap_ok] at h ⊢
-          split
-          · rename_i hm
-            simp only [hm, if_true] at h
-            have hsame := readFootnote_same a ms fw' hf
-            have hpf := footnote_restores a ms fw' l hf hm hl hp (startsWith_lstrip_nb _ hb)
-            exact hY fw' _ l ts r (by rw [hsame.1]; exact hl) hpf h hc
-          · rename_i hm
-            simp only [hm, Bool.false_eq_true, if_false] at h
-            cases h; simp [closedR, closedE] at hc
-      · rename_i hb; simp only [hb] at h; exact ih h
-
-theorem extTry_all (cfg : Cfg) (nl : Line) (rest : List Line) (hnl : nl.s = ['\n']) : ∀ gas, ExtTry cfg nl rest gas
-  | 0 => by intro a st l ts r _ _ h; simp [tryTypes] at h
-  | gas + 1 => extTry_step cfg nl rest hnl gas (extTry_all cfg nl rest hnl gas)
 
 /-! #### the accumulator of the dispatch loop is only ever extended -/
 
@@ -2065,66 +1903,6 @@ theorem tokLoop_mem (cfg : Cfg) (gas : Nat) (fw : FW) (st : St) (acc : List Entr
     rw [← h.1]
     simp [he]
 
-/-! #### (P) the dispatch loop on the extended buffer -/
-
-theorem tokLoop_ext (cfg : Cfg) (nl : Line) (rest : List Line) (hnl : nl.s = ['\n']) (hbl : .blankLine ∉ cfg.types)
-    (extra : Nat) (hex : cfg.types.length < extra) :
-    ∀ (gas : Nat) (a : FW) (st : St) (acc : List Entry) (loose : Bool) (buf : Buf) (st' : St),
-      a.InB → AllNlEnd a.lines → tokLoop cfg gas a st acc loose = .ok (buf, st') →
-      (∀ e ∈ buf.entries, closedE e = true) →
-      ∃ g', extra ≤ g' ∧
-        tokLoop cfg (gas + extra) (a.ext (nl :: rest)) st acc loose =
-          tokLoop cfg g' { lines := a.lines ++ nl :: rest, pos := a.lines.length + 1, start := a.start } st'
-            buf.entries.reverse true
-  | 0, _, _, _, _, _, _, _, _, h, _ => by simp [tokLoop] at h
-  | gas + 1, a, st, acc, loose, buf, st', hb, hl, h, hc => by
-    have e : gas + 1 + extra = (gas + extra) + 1 := by omega
-    rw [e]
-    simp only [tokLoop] at h ⊢
-    cases hp : a.peek with
-    | none =>
-      simp only [hp, Res.ok.injEq, Prod.mk.injEq] at h
-      obtain ⟨h1, h2⟩ := h
-      subst h2
-      rw [← h1]
-      simp only [ext_peek_none nl rest a hp hb,
-        tryTypes_nl cfg _ st nl hnl cfg.types (gas + extra) hbl (by omega), List.reverse_reverse]
-      refine ⟨gas + extra, by omega, ?_⟩
-      have hpos : a.pos = a.lines.length := by
-        simp only [FW.peek] at hp
-        have := List.getElem?_eq_none_iff.mp hp
-        unfold FW.InB at hb; omega
-      simp only [FW.next, FW.ext, hpos]
-    | some l =>
-      simp only [hp] at h
-      simp only [ext_peek_some _ a l hp]
-      cases ht : tryTypes cfg gas a st l cfg.types with
-      | err e => simp [ht] at h
-      | ok o =>
-        have hm := tryTypes_mono cfg a st l cfg.types o gas (gas + extra) (by omega) ht
-        simp only [ht] at h
-        cases o with
-        | none =>
-          have key := extTry_all cfg nl rest hnl (gas + extra) a st l cfg.types none hl hp hm rfl
-          simp only [key.1, Option.map_none]
-          simp only at h
-          obtain ⟨g', hg, heq⟩ := tokLoop_ext cfg nl rest hnl hbl extra hex gas a.next st acc true buf st'
-            (next_inb a l hp) hl h hc
-          exact ⟨g', hg, heq⟩
-        | some x =>
-          obtain ⟨en, fw', st1⟩ := x
-          simp only at h
-          have hcl : closedE en = true := hc en (tokLoop_mem cfg gas fw' st1 (en :: acc) loose buf st' h en (by simp))
-          have key := extTry_all cfg nl rest hnl (gas + extra) a st l cfg.types (some (en, fw', st1)) hl hp hm hcl
-          have hsame := (same_all cfg gas).1 a st l cfg.types _ ht
-          simp only [key.1, Option.map_some, extT]
-          obtain ⟨g', hg, heq⟩ := tokLoop_ext cfg nl rest hnl hbl extra hex gas fw' st1 (en :: acc) loose buf st'
-            (key.2 _ rfl) (by rw [hsame.1]; exact hl) h hc
-          refine ⟨g', hg, ?_⟩
-          rw [heq]
-          have h1 : fw'.lines = a.lines := hsame.1
-          have h2 : fw'.start = a.start := hsame.2
-          rw [h1, h2]
 
 /-! ### `Paragraph.parse_setext` is `True` again whenever a top-level read returns -/
 
@@ -2251,6 +2029,681 @@ theorem sx_all (cfg : Cfg) : ∀ g, SxTok cfg g ∧ SxLoop cfg g ∧ SxTry cfg g
     simp only [tokenizeBlock] at h
     exact hP _ _ _ _ _ hst h
 
+/-! ### (P), wider: readers that may read across blank lines, when they stopped inside the buffer -/
+
+/-- a line other than "\n" remains at or after the cursor -/
+def FW.NB (a : FW) : Prop := ∃ q l, a.pos ≤ q ∧ a.lines[q]? = some l ∧ l.s ≠ ['\n']
+
+theorem peek_none_ge (a : FW) (h : a.peek = none) : a.lines.length ≤ a.pos := by
+  simp only [FW.peek] at h
+  exact List.getElem?_eq_none_iff.mp h
+
+theorem nb_lt (a : FW) (h : a.NB) : a.pos < a.lines.length := by
+  obtain ⟨q, l, hq, hl, _⟩ := h
+  have := (List.getElem?_eq_some_iff.mp hl).1
+  omega
+
+theorem codeFenceLoop_ext (post : List Line) (ld : Str) (p : Nat) : ∀ (f f' : Nat) (a : FW) (buf : List Str),
+    a.remaining < f → a.remaining < f' → (codeFenceLoop ld p f a buf).2.pos < a.lines.length →
+    codeFenceLoop ld p f' (a.ext post) buf = ((codeFenceLoop ld p f a buf).1, (codeFenceLoop ld p f a buf).2.ext post)
+  | 0, _, _, _, h, _, _ => by omega
+  | _ + 1, 0, _, _, _, h, _ => by omega
+  | f + 1, f' + 1, a, buf, h1, h2, hr => by
+    simp only [codeFenceLoop] at hr ⊢
+    cases hp : a.peek with
+    | none =>
+      have := peek_none_ge a hp
+      simp only [hp] at hr
+      omega
+    | some l =>
+      have hrem := next_remaining a l hp
+      simp only [hp] at hr
+      simp only [ext_peek_some _ a l hp]
+      have key : ∀ (c : Bool) (X : List Str),
+          (if c = true then (buf, a.next) else codeFenceLoop ld p f a.next X).2.pos < a.lines.length →
+          (if c = true then (buf, (a.ext post).next) else codeFenceLoop ld p f' (a.ext post).next X) =
+            ((if c = true then (buf, a.next) else codeFenceLoop ld p f a.next X).1,
+             (if c = true then (buf, a.next) else codeFenceLoop ld p f a.next X).2.ext post) := by
+        intro c X hr
+        cases c with
+        | true => rfl
+        | false =>
+          simp only [Bool.false_eq_true, if_false] at hr ⊢
+          rw [ext_next]
+          exact codeFenceLoop_ext post ld p f f' a.next X (by omega) (by omega) hr
+      exact key _ _ hr
+
+theorem codeFenceLoop_posLe (ld : Str) (p : Nat) : ∀ (f : Nat) (a : FW) (buf : List Str), a.pos ≤ (codeFenceLoop ld p f a buf).2.pos
+  | 0, _, _ => Nat.le_refl _
+  | f + 1, a, buf => by
+    simp only [codeFenceLoop]
+    split
+    · exact Nat.le_refl _
+    · have key : ∀ (c : Bool) (X : List Str), a.pos ≤ (if c = true then (buf, a.next) else codeFenceLoop ld p f a.next X).2.pos := by
+        intro c X
+        cases c with
+        | true => exact Nat.le_succ _
+        | false => exact Nat.le_trans (Nat.le_succ _) (codeFenceLoop_posLe ld p f a.next X)
+      exact key _ _
+
+theorem readCodeFence_ext (post : List Line) (a : FW) (l : Line) (hp : a.peek = some l) (m : FenceMatch)
+    (hr : (readCodeFence a m).2.pos < a.lines.length) :
+    readCodeFence (a.ext post) m = ((readCodeFence a m).1, (readCodeFence a m).2.ext post) ∧
+      a.pos ≤ (readCodeFence a m).2.pos := by
+  have hrem := next_remaining a l hp
+  have hlt := peek_some_lt a l hp
+  have hre : (a.ext post).remaining = a.remaining + post.length := by
+    simp only [FW.ext, FW.remaining, List.length_append]; omega
+  unfold readCodeFence at hr ⊢
+  simp only at hr ⊢
+  refine ⟨?_, Nat.le_trans (Nat.le_succ _) (codeFenceLoop_posLe _ _ _ a.next _)⟩
+  rw [ext_next, codeFenceLoop_ext post m.leader m.prepend (a.remaining + 1) ((a.ext post).remaining + 1) a.next []
+    (by omega) (by omega) hr]
+
+theorem htmlBlockLoop_ext (nl : Line) (rest : List Line) (hnl : nl.s = ['\n']) (ec : Option Str) :
+    ∀ (f f' : Nat) (a : FW) (buf : List Str), a.InB → a.remaining < f → a.remaining < f' →
+    (ec = none ∨ (htmlBlockLoop ec f a buf).2.pos < a.lines.length) →
+    htmlBlockLoop ec f' (a.ext (nl :: rest)) buf =
+      ((htmlBlockLoop ec f a buf).1, (htmlBlockLoop ec f a buf).2.ext (nl :: rest)) ∧ (htmlBlockLoop ec f a buf).2.InB
+  | 0, _, _, _, _, h, _, _ => by omega
+  | _ + 1, 0, _, _, _, _, h, _ => by omega
+  | f + 1, f' + 1, a, buf, hb, h1, h2, hr => by
+    simp only [htmlBlockLoop] at hr ⊢
+    cases hp : a.peek with
+    | none =>
+      have hge := peek_none_ge a hp
+      simp only [hp] at hr
+      rcases hr with rfl | hr
+      · have hc : isBlank nl.s = true := by rw [hnl]; decide
+        simp only [ext_peek_none nl rest a hp hb, hc, if_true]
+        exact ⟨rfl, hb⟩
+      · omega
+    | some l =>
+      have hrem := next_remaining a l hp
+      simp only [hp] at hr
+      simp only [ext_peek_some _ a l hp]
+      cases ec with
+      | some e =>
+        simp only at hr ⊢
+        split
+        · exact ⟨rfl, next_inb a l hp⟩
+        · rename_i hc
+          simp only [hc] at hr
+          rw [ext_next]
+          exact htmlBlockLoop_ext nl rest hnl (some e) f f' a.next _ (next_inb a l hp) (by omega) (by omega) hr
+      | none =>
+        simp only at hr ⊢
+        split
+        · exact ⟨rfl, hb⟩
+        · rename_i hc
+          simp only [hc] at hr
+          rw [ext_next]
+          exact htmlBlockLoop_ext nl rest hnl none f f' a.next _ (next_inb a l hp) (by omega) (by omega) (Or.inl rfl)
+
+theorem htmlBlockLoop_posLe (ec : Option Str) : ∀ (f : Nat) (a : FW) (buf : List Str), a.pos ≤ (htmlBlockLoop ec f a buf).2.pos
+  | 0, _, _ => Nat.le_refl _
+  | f + 1, a, buf => by
+    simp only [htmlBlockLoop]
+    split
+    · exact Nat.le_refl _
+    · split
+      · split
+        · exact Nat.le_succ _
+        · exact Nat.le_trans (Nat.le_succ _) (htmlBlockLoop_posLe _ f a.next _)
+      · split
+        · exact Nat.le_refl _
+        · exact Nat.le_trans (Nat.le_succ _) (htmlBlockLoop_posLe _ f a.next _)
+
+theorem readHtmlBlock_ext (nl : Line) (rest : List Line) (hnl : nl.s = ['\n']) (a : FW) (l : Line) (hp : a.peek = some l)
+    (ec : Option Str) (hr : (readHtmlBlock a ec).2.pos < a.lines.length) :
+    readHtmlBlock (a.ext (nl :: rest)) ec = ((readHtmlBlock a ec).1, (readHtmlBlock a ec).2.ext (nl :: rest)) ∧
+      a.pos ≤ (readHtmlBlock a ec).2.pos := by
+  have hlt := peek_some_lt a l hp
+  have hre : (a.ext (nl :: rest)).remaining = a.remaining + (rest.length + 1) := by
+    simp only [FW.ext, FW.remaining, List.length_append, List.length_cons]; omega
+  unfold readHtmlBlock at hr ⊢
+  simp only at hr ⊢
+  refine ⟨?_, htmlBlockLoop_posLe _ _ a _⟩
+  rw [(htmlBlockLoop_ext nl rest hnl ec (a.remaining + 1) ((a.ext (nl :: rest)).remaining + 1) a []
+    (Nat.le_of_lt hlt) (by omega) (by omega) (Or.inr hr)).1]
+
+theorem blockCodeLoop_ext (post : List Line) : ∀ (f f' : Nat) (a : FW) (buf : List Str) (tb : Nat),
+    a.remaining < f → a.remaining < f' →
+    (∀ q l, a.pos - tb ≤ q → q < a.pos → a.lines[q]? = some l → l.s = ['\n']) →
+    (∃ q l, (blockCodeLoop f a buf tb).2.2.pos - (blockCodeLoop f a buf tb).2.1 ≤ q ∧ a.lines[q]? = some l ∧ l.s ≠ ['\n']) →
+    blockCodeLoop f' (a.ext post) buf tb =
+      ((blockCodeLoop f a buf tb).1, (blockCodeLoop f a buf tb).2.1, (blockCodeLoop f a buf tb).2.2.ext post)
+  | 0, _, _, _, _, h, _, _, _ => by omega
+  | _ + 1, 0, _, _, _, _, h, _, _ => by omega
+  | f + 1, f' + 1, a, buf, tb, h1, h2, hinv, hr => by
+    simp only [blockCodeLoop] at hr ⊢
+    cases hp : a.peek with
+    | none =>
+      exfalso
+      have hge := peek_none_ge a hp
+      simp only [hp] at hr
+      obtain ⟨q, l, hq, hl, hne⟩ := hr
+      have hlt := (List.getElem?_eq_some_iff.mp hl).1
+      exact hne (hinv q l hq (by omega) hl)
+    | some l =>
+      have hrem := next_remaining a l hp
+      have hlp : a.lines[a.pos]? = some l := hp
+      simp only [hp] at hr
+      simp only [ext_peek_some _ a l hp]
+      split
+      · rename_i hb
+        simp only [hb, if_true] at hr
+        rw [ext_next]
+        refine blockCodeLoop_ext post f f' a.next _ _ (by omega) (by omega) ?_ hr
+        intro q l' hq1 hq2 hl'
+        have hnp : a.next.pos = a.pos + 1 := rfl
+        split at hq1
+        · rename_i hnl
+          by_cases hqe : q = a.pos
+          · subst hqe
+            have : l' = l := Option.some.inj (hl'.symm.trans hlp)
+            subst this
+            simpa using hnl
+          · exact hinv q l' (by omega) (by omega) hl'
+        · omega
+      · rename_i hb
+        simp only [hb] at hr
+        split
+        · rfl
+        · rename_i hc
+          simp only [hc] at hr
+          rw [ext_next]
+          refine blockCodeLoop_ext post f f' a.next _ _ (by omega) (by omega) ?_ hr
+          intro q l' hq1 hq2 _
+          omega
+
+theorem readBlockCode_ext (post : List Line) (a : FW) (l : Line) (hp : a.peek = some l) (hr : (readBlockCode a).2.NB) :
+    readBlockCode (a.ext post) = ((readBlockCode a).1, (readBlockCode a).2.ext post) := by
+  have hlt := peek_some_lt a l hp
+  have hre : (a.ext post).remaining = a.remaining + post.length := by
+    simp only [FW.ext, FW.remaining, List.length_append]; omega
+  have hsame := blockCodeLoop_same (a.remaining + 1) a [] 0
+  unfold readBlockCode at hr ⊢
+  simp only at hr ⊢
+  obtain ⟨q, l', hq, hl', hne⟩ := hr
+  simp only at hq hl'
+  rw [hsame.1] at hl'
+  rw [blockCodeLoop_ext post (a.remaining + 1) ((a.ext post).remaining + 1) a [] 0 (by omega) (by omega)
+    (by intro q l _ _ _; omega) ⟨q, l', hq, hl', hne⟩]
+  rfl
+
+theorem tableLoop_posLe : ∀ (f : Nat) (a : FW) (buf : List Str), a.pos ≤ (tableLoop f a buf).2.pos
+  | 0, _, _ => Nat.le_refl _
+  | f + 1, a, buf => by
+    simp only [tableLoop]
+    split
+    · split
+      · exact Nat.le_trans (Nat.le_succ _) (tableLoop_posLe f a.next _)
+      · exact Nat.le_refl _
+    · exact Nat.le_refl _
+
+theorem readTable_pos (a : FW) (r) (h : readTable a = some r) : a.pos ≤ r.2.2.pos := by
+  unfold readTable at h
+  split at h
+  · cases h
+  · simp only at h
+    split at h
+    · split at h
+      · cases h; exact Nat.le_trans (Nat.le_succ _) (tableLoop_posLe _ a.next _)
+      · cases h
+    · cases h
+
+theorem paragraphLoop_posLe (cfg : Cfg) (so : Bool) : ∀ (f : Nat) (a : FW) (buf : List Str) (r),
+    paragraphLoop cfg so f a buf = .ok r → a.pos ≤ r.2.2.pos
+  | 0, _, _, _, h => by simp [paragraphLoop] at h
+  | f + 1, a, buf, r, h => by
+    simp only [paragraphLoop] at h
+    split at h
+    · cases h; exact Nat.le_refl _
+    · split at h
+      · cases h; exact Nat.le_refl _
+      · split at h
+        · cases h
+        · cases h; exact Nat.le_refl _
+        · split at h
+          · cases h; exact Nat.le_succ _
+          · split at h
+            · cases h; exact Nat.le_refl _
+            · exact Nat.le_trans (Nat.le_succ _) (paragraphLoop_posLe cfg so f a.next _ r h)
+
+theorem readParagraph_pos (cfg : Cfg) (so : Bool) (a : FW) (l0 : Str) (r) (h : readParagraph cfg so a l0 = .ok r) :
+    a.pos ≤ r.2.2.pos := by
+  unfold readParagraph at h
+  split at h
+  · cases h
+  · rename_i buf st fw1 heq
+    cases h
+    exact Nat.le_trans (Nat.le_succ _) (paragraphLoop_posLe cfg so _ a.next _ (buf, st, fw1) heq)
+
+theorem quoteLoop_pos (cfg : Cfg) : ∀ (f : Nat) (a : FW) (buf : List Line) (fl : QFlags) (r),
+    quoteLoop cfg f a buf fl = .ok r → a.pos ≤ r.2.pos
+  | 0, _, _, _, _, h => by simp [quoteLoop] at h
+  | f + 1, a, buf, fl, r, h => by
+    simp only [quoteLoop] at h
+    split at h
+    · cases h; exact Nat.le_refl _
+    · split at h
+      · cases h; exact Nat.le_refl _
+      · split at h
+        · cases h
+        · cases h; exact Nat.le_refl _
+        · split at h
+          · cases h
+          · split at h
+            · cases h
+            · split at h
+              · split at h
+                · cases h
+                · exact Nat.le_trans (Nat.le_succ _) (quoteLoop_pos cfg f a.next _ _ r h)
+              · split at h
+                · cases h; exact Nat.le_refl _
+                · exact Nat.le_trans (Nat.le_succ _) (quoteLoop_pos cfg f a.next _ _ r h)
+
+theorem quoteLines_pos (cfg : Cfg) (a : FW) (l0 : Line) (r) (h : quoteLines cfg a l0 = .ok r) : a.pos ≤ r.2.2.pos := by
+  unfold quoteLines at h
+  split at h
+  · cases h
+  · split at h
+    · cases h
+    · simp only at h
+      split at h
+      · cases h
+      · rename_i buf fw2 heq
+        cases h
+        exact Nat.le_trans (Nat.le_succ _) (quoteLoop_pos cfg _ a.next _ _ (buf, fw2) heq)
+
+theorem footnoteLines_inb : ∀ (f : Nat) (a : FW) (buf : List Str), a.InB → (footnoteLines f a buf).2.InB
+  | 0, _, _, h => h
+  | f + 1, a, buf, h => by
+    simp only [footnoteLines]
+    split
+    · rename_i l hp
+      split
+      · exact footnoteLines_inb f a.next _ (next_inb a l hp)
+      · exact h
+    · exact h
+
+theorem readFootnote_inb (a : FW) (hb : a.InB) (ms) (fw') (h : readFootnote a = .ok (ms, fw')) : fw'.InB := by
+  have h1 := footnoteLines_inb (a.remaining + 1) a [] hb
+  unfold readFootnote at h
+  simp only at h
+  split at h
+  · cases h
+  · cases h
+    split
+    · unfold FW.InB at h1 ⊢; simp only; omega
+    · exact h1
+
+def noList : Entry → Bool
+  | .list .. => false
+  | _ => true
+
+/-- what the dispatch loop knows about a step: the entry is not a list, and either it is of a closed
+    kind or a line other than "\n" remains at or after the cursor it returned -/
+def okR : Option (Entry × FW × St) → Prop
+  | none => True
+  | some (e, fw', _) => noList e = true ∧ (closedE e = true ∨ fw'.NB)
+
+def ExtTry2 (cfg : Cfg) (nl : Line) (rest : List Line) (gas : Nat) : Prop :=
+  ∀ (a : FW) (st : St) (l : Line) (ts : List BTok) (r), AllNlEnd a.lines → a.peek = some l →
+    tryTypes cfg gas a st l ts = .ok r → okR r →
+    tryTypes cfg gas (a.ext (nl :: rest)) st l ts = .ok (r.map (extT (nl :: rest))) ∧
+      ∀ x, r = some x → x.2.1.InB ∧ a.pos ≤ x.2.1.pos
+
+theorem nb_of_okR {e : Entry} {fw' : FW} {st' : St} (h : okR (some (e, fw', st'))) (hc : closedE e = false) : fw'.NB := by
+  rcases h.2 with h | h
+  · rw [hc] at h; cases h
+  · exact h
+
+theorem extTry2_step (cfg : Cfg) (nl : Line) (rest : List Line) (hnl : nl.s = ['\n']) (gas : Nat)
+    (hY : ExtTry2 cfg nl rest gas) : ExtTry2 cfg nl rest (gas + 1) := by
+  intro a st l ts r hl hp h hc
+  cases ts with
+  | nil =>
+    simp only [tryTypes] at h ⊢
+    cases h
+    exact ⟨rfl, fun x hx => by cases hx⟩
+  | cons t ts =>
+    have ih := fun (h : tryTypes cfg gas a st l ts = .ok r) => hY a st l ts r hl hp h hc
+    have hlt := peek_some_lt a l hp
+    have hinb : a.InB := Nat.le_of_lt hlt
+    simp only [tryTypes, ext_start, ext_pos] at h ⊢
+    cases t <;> simp only at h ⊢
+    · -- htmlBlock
+      cases hh : htmlBlockStart l.s with
+      | err e => simp [hh] at h
+      | ok o =>
+        simp only [hh] at h ⊢
+        cases o with
+        | none => exact ih h
+        | some p =>
+          simp only at h
+          cases h
+          have hnb := nb_lt _ (nb_of_okR hc rfl)
+          rw [(readHtmlBlock_same a p.2).1] at hnb
+          have key := readHtmlBlock_ext nl rest hnl a l hp p.2 hnb
+          simp only [key.1]
+          refine ⟨rfl, ?_⟩
+          intro y hy; cases hy
+          exact ⟨by unfold FW.InB; rw [(readHtmlBlock_same a p.2).1]; exact Nat.le_of_lt hnb, key.2⟩
+    · -- blockCode
+      split
+      · rename_i hb
+        simp only [hb, if_true] at h
+        cases h
+        have hnb := nb_of_okR hc rfl
+        have hlt' := nb_lt _ hnb
+        rw [(readBlockCode_same a).1] at hlt'
+        rw [readBlockCode_ext _ a l hp hnb]
+        refine ⟨rfl, ?_⟩
+        intro y hy; cases hy
+        exact ⟨by unfold FW.InB; rw [(readBlockCode_same a).1]; exact Nat.le_of_lt hlt', readBlockCode_pos a⟩
+      · rename_i hb; simp only [hb] at h; exact ih h
+    · -- heading
+      rw [readHeading_ext]
+      cases hh : readHeading a l.s with
+      | none => simp only [hh] at h ⊢; exact ih h
+      | some x =>
+        have hfw := readHeading_fw a l.s x hh
+        simp only [hh] at h ⊢
+        cases h
+        refine ⟨rfl, ?_⟩
+        intro y hy; cases hy
+        show x.2.2.2.InB ∧ a.pos ≤ x.2.2.2.pos
+        rw [hfw]; exact ⟨next_inb a l hp, Nat.le_succ _⟩
+    · -- quote
+      split
+      · rename_i hb
+        simp only [hb, if_true] at h
+        cases hq : quoteLines cfg a l with
+        | err e => simp [hq] at h
+        | ok x =>
+          have key := quoteLines_ext cfg nl rest hnl a l hp l x hq
+          have hpos := quoteLines_pos cfg a l x hq
+          obtain ⟨qls, qstart, fw'⟩ := x
+          simp only [hq, key.1] at h ⊢
+          cases hbk : tokenizeBlock cfg gas qls qstart { st with setext := false } with
+          | err e => simp [hbk] at h
+          | ok bb =>
+            simp only [hbk] at h ⊢
+            cases h
+            refine ⟨rfl, ?_⟩
+            intro y hy; cases hy; exact ⟨key.2, hpos⟩
+      · rename_i hb; simp only [hb] at h; exact ih h
+    · -- codeFence
+      cases hh : codeFenceStart l.s with
+      | none => simp only [hh] at h ⊢; exact ih h
+      | some m =>
+        simp only [hh] at h ⊢
+        cases h
+        have hnb := nb_lt _ (nb_of_okR hc rfl)
+        rw [(readCodeFence_same a m).1] at hnb
+        have key := readCodeFence_ext (nl :: rest) a l hp m hnb
+        simp only [key.1]
+        refine ⟨rfl, ?_⟩
+        intro y hy; cases hy
+        exact ⟨by unfold FW.InB; rw [(readCodeFence_same a m).1]; exact Nat.le_of_lt hnb, key.2⟩
+    · -- thematicBreak
+      split
+      · rename_i hb
+        simp only [hb, if_true] at h
+        cases h
+        refine ⟨rfl, ?_⟩
+        intro y hy; cases hy; exact ⟨next_inb a l hp, Nat.le_succ _⟩
+      · rename_i hb; simp only [hb] at h; exact ih h
+    · -- list
+      split
+      · rename_i hb
+        simp only [hb, if_true] at h
+        cases hr : readList cfg gas a st none none [] with
+        | err e => simp [hr] at h
+        | ok x => simp only [hr] at h; cases h; have := hc.1; simp [noList] at this
+      · rename_i hb; simp only [hb] at h; exact ih h
+    · -- table
+      split
+      · rename_i hb
+        simp only [hb, if_true] at h
+        have key := readTable_ext nl rest hnl a l hp
+        rw [key.1]
+        cases hh : readTable a with
+        | none => simp only [hh] at h ⊢; exact ih h
+        | some x =>
+          simp only [hh] at h ⊢
+          cases h
+          refine ⟨rfl, ?_⟩
+          intro y hy; cases hy; exact ⟨key.2 x hh, readTable_pos a x hh⟩
+      · rename_i hb; simp only [hb] at h; exact ih h
+    · -- footnote
+      split
+      · rename_i hb
+        simp only [hb, if_true] at h
+        rw [readFootnote_ext nl rest hnl a hinb]
+        cases hf : readFootnote a with
+        | err e => simp [hf] at h
+        | ok x =>
+          obtain ⟨ms, fw'⟩ := x
+          have hpos := readFootnote_pos a hl ms fw' hf
+          simp only [hf, rmap_ok] at h ⊢
+          split
+          · rename_i hm
+            simp only [hm, if_true] at h
+            have hsame := readFootnote_same a ms fw' hf
+            have hpf := footnote_restores a ms fw' l hf hm hl hp (startsWith_lstrip_nb _ hb)
+            have := hY fw' _ l ts r (by rw [hsame.1]; exact hl) hpf h hc
+            exact ⟨this.1, fun x hx => ⟨(this.2 x hx).1, Nat.le_trans hpos (this.2 x hx).2⟩⟩
+          · rename_i hm
+            simp only [hm, Bool.false_eq_true, if_false] at h
+            cases h
+            refine ⟨rfl, ?_⟩
+            intro y hy; cases hy; exact ⟨readFootnote_inb a hinb ms fw' hf, hpos⟩
+      · rename_i hb; simp only [hb] at h; exact ih h
+    · -- paragraph
+      split
+      · rename_i hb
+        simp only [hb, if_true] at h
+        cases hpp : readParagraph cfg st.setext a l.s with
+        | err e => simp [hpp] at h
+        | ok x =>
+          have key := readParagraph_ext cfg st.setext nl rest hnl a l hp l.s x hpp
+          have hpos := readParagraph_pos cfg st.setext a l.s x hpp
+          obtain ⟨bb, se, fw'⟩ := x
+          simp only [hpp, key.1] at h ⊢
+          cases se with
+          | true =>
+            simp only at h ⊢
+            cases h
+            refine ⟨rfl, ?_⟩
+            intro y hy; cases hy; exact ⟨key.2, hpos⟩
+          | false =>
+            simp only at h ⊢
+            cases h
+            refine ⟨rfl, ?_⟩
+            intro y hy; cases hy; exact ⟨key.2, hpos⟩
+      · rename_i hb; simp only [hb] at h; exact ih h
+    · -- blankLine
+      split
+      · rename_i hb
+        simp only [hb, if_true] at h
+        cases h
+        refine ⟨rfl, ?_⟩
+        intro y hy; cases hy; exact ⟨next_inb a l hp, Nat.le_succ _⟩
+      · rename_i hb; simp only [hb] at h; exact ih h
+    · -- linkRefDefBlock
+      split
+      · rename_i hb
+        simp only [hb, if_true] at h
+        rw [readFootnote_ext nl rest hnl a hinb]
+        cases hf : readFootnote a with
+        | err e => simp [hf] at h
+        | ok x =>
+          obtain ⟨ms, fw'⟩ := x
+          have hpos := readFootnote_pos a hl ms fw' hf
+          simp only [hf, rmap_ok] at h ⊢
+          split
+          · rename_i hm
+            simp only [hm, if_true] at h
+            have hsame := readFootnote_same a ms fw' hf
+            have hpf := footnote_restores a ms fw' l hf hm hl hp (startsWith_lstrip_nb _ hb)
+            have := hY fw' _ l ts r (by rw [hsame.1]; exact hl) hpf h hc
+            exact ⟨this.1, fun x hx => ⟨(this.2 x hx).1, Nat.le_trans hpos (this.2 x hx).2⟩⟩
+          · rename_i hm
+            simp only [hm, Bool.false_eq_true, if_false] at h
+            cases h
+            refine ⟨rfl, ?_⟩
+            intro y hy; cases hy; exact ⟨readFootnote_inb a hinb ms fw' hf, hpos⟩
+      · rename_i hb; simp only [hb] at h; exact ih h
+
+theorem extTry2_all (cfg : Cfg) (nl : Line) (rest : List Line) (hnl : nl.s = ['\n']) : ∀ gas, ExtTry2 cfg nl rest gas
+  | 0 => by intro a st l ts r _ _ h; simp [tryTypes] at h
+  | gas + 1 => extTry2_step cfg nl rest hnl gas (extTry2_all cfg nl rest hnl gas)
+
+/-! #### (P) the dispatch loop on the extended buffer -/
+
+/-- on the line "\n" no token type other than the Markdown renderer's `BlankLine` starts
+    (same statement as `tryTypes_nl` in `Proofs/Inert.lean`; repeated so that this file only needs `Proofs/Block`) -/
+theorem tryTypes_nl_none (cfg : Cfg) (fw : FW) (st : St) (l : Line) (hl : l.s = ['\n']) :
+    ∀ (ts : List BTok) (gas : Nat), .blankLine ∉ ts → ts.length < gas → tryTypes cfg gas fw st l ts = .ok none
+  | _, 0, _, hg => by simp at hg
+  | [], gas + 1, _, _ => by simp [tryTypes]
+  | t :: ts, gas + 1, hm, hg => by
+    have hg' : ts.length < gas := by simp only [List.length_cons] at hg; omega
+    have ih := tryTypes_nl_none cfg fw st l hl ts gas (fun h => hm (List.mem_cons_of_mem _ h)) hg'
+    have h1 : htmlBlockStart ['\n'] = .ok none := by decide
+    have h2 : blockCodeStart ['\n'] = false := by decide
+    have h3 : heading ['\n'] = none := by decide
+    have h4 : quoteStart ['\n'] = false := by decide
+    have h5 : codeFenceStart ['\n'] = none := by decide
+    have h6 : thematicBreak ['\n'] = false := by decide
+    have h7 : listStart ['\n'] = false := by decide
+    have h8 : (['\n'] : Str).contains '|' = false := by decide
+    have h9 : startsWith ['['] (lstrip ['\n']) = false := by decide
+    have h10 : isBlank ['\n'] = true := by decide
+    unfold tryTypes
+    cases t <;> simp only [hl, h1, h2, h3, h4, h5, h6, h7, h8, h9, h10, readHeading, Bool.false_eq_true, if_false,
+      Bool.not_true] <;> first | exact ih | exact absurd (List.mem_cons_self ..) hm
+
+theorem tryTypes_some_ne_nl (cfg : Cfg) (hbl : .blankLine ∉ cfg.types) (gas : Nat) (fw : FW) (st : St) (l : Line) (x)
+    (h : tryTypes cfg gas fw st l cfg.types = .ok (some x)) : l.s ≠ ['\n'] := by
+  intro hl
+  have h1 := tryTypes_mono cfg fw st l cfg.types _ gas (gas + cfg.types.length + 1) (by omega) h
+  rw [tryTypes_nl_none cfg fw st l hl cfg.types _ hbl (by omega)] at h1
+  cases h1
+
+/-- if the loop started at `fw` produces any entry at all, a line other than "\n" lies at or after `fw` -/
+theorem tokLoop_new_nb (cfg : Cfg) (hbl : .blankLine ∉ cfg.types) : ∀ (gas : Nat) (fw : FW) (st : St) (acc : List Entry)
+    (loose : Bool) (buf : Buf) (st' : St) (new : List Entry),
+    tokLoop cfg gas fw st acc loose = .ok (buf, st') → buf.entries = acc.reverse ++ new → new ≠ [] → fw.NB
+  | 0, _, _, _, _, _, _, _, h, _, _ => by simp [tokLoop] at h
+  | gas + 1, fw, st, acc, loose, buf, st', new, h, hn, hne => by
+    simp only [tokLoop] at h
+    cases hp : fw.peek with
+    | none =>
+      simp only [hp, Res.ok.injEq, Prod.mk.injEq] at h
+      rw [← h.1] at hn
+      simp only at hn
+      have : new = [] := by simpa using hn
+      exact absurd this hne
+    | some l =>
+      simp only [hp] at h
+      cases ht : tryTypes cfg gas fw st l cfg.types with
+      | err e => simp [ht] at h
+      | ok o =>
+        simp only [ht] at h
+        cases o with
+        | none =>
+          simp only at h
+          obtain ⟨q, l', hq, hl', hne'⟩ := tokLoop_new_nb cfg hbl gas fw.next st acc true buf st' new h hn hne
+          exact ⟨q, l', Nat.le_trans (Nat.le_succ _) hq, hl', hne'⟩
+        | some x => exact ⟨fw.pos, l, Nat.le_refl _, hp, tryTypes_some_ne_nl cfg hbl gas fw st l x ht⟩
+
+theorem tokLoop_ext (cfg : Cfg) (nl : Line) (rest : List Line) (hnl : nl.s = ['\n']) (hbl : .blankLine ∉ cfg.types)
+    (extra : Nat) (hex : cfg.types.length < extra) :
+    ∀ (gas : Nat) (a : FW) (st : St) (acc : List Entry) (loose : Bool) (buf : Buf) (st' : St) (new : List Entry),
+      a.InB → AllNlEnd a.lines → tokLoop cfg gas a st acc loose = .ok (buf, st') →
+      buf.entries = acc.reverse ++ new → (∀ e ∈ new, noList e = true) → (∀ e, new.getLast? = some e → closedE e = true) →
+      ∃ g', extra ≤ g' ∧
+        tokLoop cfg (gas + extra) (a.ext (nl :: rest)) st acc loose =
+          tokLoop cfg g' { lines := a.lines ++ nl :: rest, pos := a.lines.length + 1, start := a.start } st'
+            buf.entries.reverse true
+  | 0, _, _, _, _, _, _, _, _, _, h, _, _, _ => by simp [tokLoop] at h
+  | gas + 1, a, st, acc, loose, buf, st', new, hb, hl, h, hn, hnol, hlast => by
+    have e : gas + 1 + extra = (gas + extra) + 1 := by omega
+    rw [e]
+    simp only [tokLoop] at h ⊢
+    cases hp : a.peek with
+    | none =>
+      simp only [hp, Res.ok.injEq, Prod.mk.injEq] at h
+      obtain ⟨h1, h2⟩ := h
+      subst h2
+      rw [← h1]
+      simp only [ext_peek_none nl rest a hp hb,
+        tryTypes_nl_none cfg _ st nl hnl cfg.types (gas + extra) hbl (by omega), List.reverse_reverse]
+      refine ⟨gas + extra, by omega, ?_⟩
+      have hpos : a.pos = a.lines.length := by
+        have := peek_none_ge a hp
+        unfold FW.InB at hb; omega
+      simp only [FW.next, FW.ext, hpos]
+    | some l =>
+      simp only [hp] at h
+      simp only [ext_peek_some _ a l hp]
+      cases ht : tryTypes cfg gas a st l cfg.types with
+      | err e => simp [ht] at h
+      | ok o =>
+        have hm := tryTypes_mono cfg a st l cfg.types o gas (gas + extra) (by omega) ht
+        simp only [ht] at h
+        cases o with
+        | none =>
+          have key := extTry2_all cfg nl rest hnl (gas + extra) a st l cfg.types none hl hp hm trivial
+          simp only [key.1, Option.map_none]
+          simp only at h
+          exact tokLoop_ext cfg nl rest hnl hbl extra hex gas a.next st acc true buf st' new (next_inb a l hp) hl h hn hnol hlast
+        | some x =>
+          obtain ⟨en, fw', st1⟩ := x
+          simp only at h
+          -- the entries produced after `en`
+          have hacc := tokLoop_acc cfg gas fw' st1 (en :: acc) loose
+          rw [h] at hacc
+          cases hr : tokLoop cfg gas fw' st1 [] false with
+          | err e => rw [hr] at hacc; cases hacc
+          | ok r1 =>
+            rw [hr] at hacc
+            simp only [rmap_ok, withAcc, Res.ok.injEq, Prod.mk.injEq] at hacc
+            have hent : buf.entries = (en :: acc).reverse ++ r1.1.entries := by rw [hacc.1]
+            have hnew : new = en :: r1.1.entries := by
+              have : acc.reverse ++ new = acc.reverse ++ (en :: r1.1.entries) := by
+                rw [← hn, hent]; simp
+              exact List.append_cancel_left this
+            have hok : okR (some (en, fw', st1)) := by
+              refine ⟨hnol en (by rw [hnew]; simp), ?_⟩
+              cases hre : r1.1.entries with
+              | nil => left; apply hlast; rw [hnew, hre]; rfl
+              | cons y ys =>
+                right
+                exact tokLoop_new_nb cfg hbl gas fw' st1 (en :: acc) loose buf st' r1.1.entries h hent (by rw [hre]; simp)
+            have key := extTry2_all cfg nl rest hnl (gas + extra) a st l cfg.types (some (en, fw', st1)) hl hp hm hok
+            have hsame := (same_all cfg gas).1 a st l cfg.types _ ht
+            simp only [key.1, Option.map_some, extT]
+            obtain ⟨g', hg, heq⟩ := tokLoop_ext cfg nl rest hnl hbl extra hex gas fw' st1 (en :: acc) loose buf st' r1.1.entries
+              (key.2 _ rfl).1 (by rw [hsame.1]; exact hl) h hent
+              (fun e he => hnol e (by rw [hnew]; exact List.mem_cons_of_mem _ he))
+              (by
+                intro e he
+                apply hlast
+                rw [hnew]
+                cases hre : r1.1.entries with
+                | nil => rw [hre] at he; cases he
+                | cons y ys => rw [hre] at he; rw [List.getLast?_cons_cons]; exact he)
+            refine ⟨g', hg, ?_⟩
+            rw [heq]
+            have h1 : fw'.lines = a.lines := hsame.1
+            have h2 : fw'.start = a.start := hsame.2
+            rw [h1, h2]
+
 /-! ### The three statements used by C05 -/
 
 theorem allNlEnd_map_sh (k : Nat) (ls : List Line) (h : AllNlEnd ls) : AllNlEnd (ls.map (Line.sh k)) := by
@@ -2274,13 +2727,16 @@ theorem tokLoop_suffix_shift (cfg : Cfg) (gas : Nat) (pre B0 : List Line) (start
   rw [this]
   simp only [tokenizeBlock]
 
-/-- **(P) Prefix independence (partial).**  If `tokenize_block(A)` returns and every top-level block
-    it produced is a paragraph, setext or ATX heading, thematic break, block quote or table, then on
-    `A ++ "\n" :: rest` (any `rest`) the tokenizer produces the same blocks, leaves the same state,
-    and continues, with `loose := true`, at the line after the "\n". -/
+/-- the last top-level block, if any, is a paragraph, setext or ATX heading, thematic break, block quote or table -/
+def lastClosed (es : List Entry) : Prop := ∀ e, es.getLast? = some e → closedE e = true
+
+/-- **(P) Prefix independence (partial).**  If `tokenize_block(A)` returns, none of the top-level
+    blocks it produced is a list, and the last one is a paragraph, setext or ATX heading, thematic
+    break, block quote or table, then on `A ++ "\n" :: rest` (any `rest`) the tokenizer produces the
+    same blocks, leaves the same state, and continues, with `loose := true`, at the line after the "\n". -/
 theorem tokenizeBlock_prefix (cfg : Cfg) (hbl : .blankLine ∉ cfg.types) (A : List Line) (nl : Line) (hnl : nl.s = ['\n'])
     (rest : List Line) (start : Nat) (st : St) (gas : Nat) (bA : Buf) (stA : St)
-    (hA : tokenizeBlock cfg gas A start st = .ok (bA, stA)) (hcl : ∀ e ∈ bA.entries, closedE e = true)
+    (hA : tokenizeBlock cfg gas A start st = .ok (bA, stA)) (hnol : ∀ e ∈ bA.entries, noList e = true) (hlast : lastClosed bA.entries)
     (hnlA : AllNlEnd A) (extra : Nat) (hex : cfg.types.length < extra) :
     ∃ g', extra ≤ g' ∧
       tokenizeBlock cfg (gas + extra) (A ++ nl :: rest) start st =
@@ -2292,18 +2748,18 @@ theorem tokenizeBlock_prefix (cfg : Cfg) (hbl : .blankLine ∉ cfg.types) (A : L
     rw [e]
     simp only [tokenizeBlock] at hA ⊢
     exact tokLoop_ext cfg nl rest hnl hbl extra hex g { lines := A, pos := 0, start := start } st [] false bA stA
-      (Nat.zero_le _) hnlA hA hcl
+      bA.entries (Nat.zero_le _) hnlA hA (by simp) hnol hlast
 
 /-- **Concatenation across a blank line (partial).**  `A`, a "\n" line and `B` tokenized as one buffer
     give `A`'s blocks followed by `B`'s blocks, the latter with line numbers (and ghost origins)
     raised by `A.length + 1`; `B` is read in the state `A` leaves behind. -/
 theorem tokenizeBlock_concat (cfg : Cfg) (hbl : .blankLine ∉ cfg.types) (A B0 : List Line) (nl : Line) (hnl : nl.s = ['\n'])
     (start : Nat) (st : St) (gA gB : Nat) (bA bB : Buf) (stA stB : St)
-    (hA : tokenizeBlock cfg gA A start st = .ok (bA, stA)) (hcl : ∀ e ∈ bA.entries, closedE e = true)
+    (hA : tokenizeBlock cfg gA A start st = .ok (bA, stA)) (hnol : ∀ e ∈ bA.entries, noList e = true) (hlast : lastClosed bA.entries)
     (hB : tokenizeBlock cfg gB B0 start stA = .ok (bB, stB)) (hnlA : AllNlEnd A) (hnlB : AllNlEnd B0) :
     tokenizeBlock cfg (gA + (gB + cfg.types.length + 1)) (A ++ nl :: B0.map (Line.sh (A.length + 1))) start st =
       .ok ({ entries := bA.entries ++ shiftEntries (A.length + 1) bB.entries, loose := true }, stB) := by
-  obtain ⟨g', hg, heq⟩ := tokenizeBlock_prefix cfg hbl A nl hnl (B0.map (Line.sh (A.length + 1))) start st gA bA stA hA hcl hnlA
+  obtain ⟨g', hg, heq⟩ := tokenizeBlock_prefix cfg hbl A nl hnl (B0.map (Line.sh (A.length + 1))) start st gA bA stA hA hnol hlast hnlA
     (gB + cfg.types.length + 1) (by omega)
   rw [heq]
   have h1 : A ++ nl :: B0.map (Line.sh (A.length + 1)) = (A ++ [nl]) ++ B0.map (Line.sh (A ++ [nl]).length) := by simp
